@@ -4,6 +4,8 @@ import Secp.Model.PrivKey
 import Secp.Model.PubKey
 import Secp.Gen.FieldIR
 import Secp.Gen.ScalarIR
+import Secp.Gen.Formulas
+import Secp.Model.ScalarMult
 /-
   Driver — line protocol.  One operation per input line (`op arg…`, byte strings
   in hex, "-" for the empty string, numbers in decimal); one answer per line:
@@ -133,6 +135,136 @@ def opSchnorrPubParse (args : List String) : String :=
     | none => "bad-hex"
   | _ => "bad-args"
 
+def entryByName (n : String) : Option Secp.FOp.Entry := Secp.Gen.Formulas.allEntries.find? (·.name == n)
+
+def hexNat (s : String) : Option Nat := (ofHex s).map beNat
+
+def triple (r : List Nat) (i : Nat) : String :=
+  natHex32 (r.getD i 0) ++ " " ++ natHex32 (r.getD (i+1) 0) ++ " " ++ natHex32 (r.getD (i+2) 0)
+
+/-- jac <entry> params… : run the generated formula program at value level -/
+def opJac (args : List String) : String :=
+  match args with
+  | name :: rest =>
+    match entryByName name, rest.mapM hexNat with
+    | some e, some ps =>
+      -- aliased entries take only the non-aliased parameters
+      let params := ps ++ List.replicate (e.nparam - ps.length) 0
+      match Secp.FOp.runEntry e params [] with
+      | none => "no-path\t="
+      | some (r, _) =>
+        let out :=
+          if name == "AddNonConst_r1" then triple r 0 ++ " | " ++ triple r 3
+          else if name == "AddNonConst_r2" then triple r 3 ++ " | " ++ triple r 0
+          else if name == "DoubleNonConst_r1" || name == "ToAffine" then triple r 0
+          else if e.nparam == 9 then triple r 6 ++ " | " ++ triple r 0 ++ " | " ++ triple r 3
+          else triple r 3 ++ " | " ++ triple r 0
+        out ++ "\t="
+    | _, _ => "bad-args"
+  | _ => "bad-args"
+
+def opIsOnCurve (args : List String) : String :=
+  match args.mapM hexNat with
+  | some [x, y] =>
+    match Secp.FOp.runEntry Secp.Gen.Formulas.isOnCurve [x, y] [] with
+    | some (_, some b) => toString b ++ "\t" ++ toString (onCurveXY x y)
+    | _ => "no-path"
+  | _ => "bad-args"
+
+def opDecompressY (args : List String) : String :=
+  match args with
+  | [xs, odd] =>
+    match hexNat xs with
+    | some x =>
+      match Secp.FOp.runEntry Secp.Gen.Formulas.DecompressY [x, 0] [odd == "1"] with
+      | some (r, some true) => "true " ++ natHex32 (r.getD 1 0 % P) ++ "\t" ++
+          (match Secp.Model.decompressY x (odd == "1") with | some y => "true " ++ natHex32 y | none => "false")
+      | some (_, some false) => "false\t" ++
+          (match Secp.Model.decompressY x (odd == "1") with | some y => "true " ++ natHex32 y | none => "false")
+      | _ => "no-path"
+    | none => "bad-hex"
+  | _ => "bad-args"
+
+def jacStr (q : Jac) : String := natHex32 q.1 ++ " " ++ natHex32 q.2.1 ++ " " ++ natHex32 q.2.2
+
+def ptStr : Pt → String
+  | none => "inf"
+  | some (x, y) => natHex32 x ++ " " ++ natHex32 y
+
+/-- scalar argument as the code reads it (SetByteSlice: reduce once) -/
+def scalarArg (s : String) : Option Nat := (ofHex s).map fun b => (scalarSetByteSlice b).1
+
+def opSmul (args : List String) : String :=
+  match args with
+  | [ks, xs, ys, zs] =>
+    match scalarArg ks, hexNat xs, hexNat ys, hexNat zs with
+    | some k, some x, some y, some z =>
+      let r := scalarMultNC k (x, y, z)
+      -- spec: k • (affine point)
+      let sp := smul k (Jac.toPt (x, y, z))
+      jacStr r ++ "\t" ++ (if Jac.toPt r == sp then jacStr r else "SPEC-MISMATCH " ++ ptStr sp)
+    | _, _, _, _ => "bad-args"
+  | _ => "bad-args"
+
+def opSbmul (args : List String) : String :=
+  match args with
+  | [ks] =>
+    match scalarArg ks with
+    | some k =>
+      let r := scalarBaseMultNC k
+      let sp := smul k G
+      jacStr r ++ "\t" ++ (if Jac.toPt r == sp then jacStr r else "SPEC-MISMATCH " ++ ptStr sp)
+    | none => "bad-args"
+  | _ => "bad-args"
+
+def opNaf (args : List String) : String :=
+  match args.mapM ofHex with
+  | some [k] =>
+    let n := naf k
+    let pos := n.posBytes
+    let neg := n.negBytes
+    -- spec: pos − neg = k, no overlapping digits
+    let ok := beNat pos == beNat k + beNat neg && (pos.zip neg).all (fun (a, b) => a &&& b == 0)
+    hexOrDash pos ++ " " ++ hexOrDash neg ++ "\t" ++ (if ok then hexOrDash pos ++ " " ++ hexOrDash neg else "SPEC-MISMATCH")
+  | _ => "bad-args"
+
+def opSplitK (args : List String) : String :=
+  match args with
+  | [ks] =>
+    match scalarArg ks with
+    | some k =>
+      let (k1, k2) := splitK k
+      let lambda := (N - endoNegLambda) % N
+      let ok := (k1 + k2 * lambda) % N == k % N
+      natHex32 k1 ++ " " ++ natHex32 k2 ++ "\t" ++ (if ok then natHex32 k1 ++ " " ++ natHex32 k2 else "SPEC-MISMATCH")
+    | none => "bad-args"
+  | _ => "bad-args"
+
+def opMul512 (args : List String) : String :=
+  match args.mapM scalarArg with
+  | some [a, b] => natHex32 (mul512Rsh320Round a b) ++ "\t="
+  | _ => "bad-args"
+
+def opTablePt (args : List String) : String :=
+  match args.map String.toNat? with
+  | [some i, some j] =>
+    let q := tablePoint i j
+    -- spec: entry = (j · 256^(31−i)) • G, with (0,0) for the identity
+    let sp := smul (j * 256 ^ (31 - i)) G
+    let ok := match sp with | none => q.1 == 0 && q.2.1 == 0 | some (x, y) => q.1 == x && q.2.1 == y
+    jacStr q ++ "\t" ++ (if ok then jacStr q else "SPEC-MISMATCH " ++ ptStr sp)
+  | _ => "bad-args"
+
+def opPubKey (args : List String) : String :=
+  match args with
+  | [ks] =>
+    match scalarArg ks with
+    | some d =>
+      let r := toAffineJ (scalarBaseMultNC d)
+      natHex32 r.1 ++ " " ++ natHex32 r.2.1 ++ "\t" ++ (match smul d G with | some (x, y) => natHex32 x ++ " " ++ natHex32 y | none => natHex32 0 ++ " " ++ natHex32 0)
+    | none => "bad-args"
+  | _ => "bad-args"
+
 def runOp (line : String) : String :=
   match (line.splitOn " ").filter (· ≠ "") with
   | [] => "empty"
@@ -142,6 +274,16 @@ def runOp (line : String) : String :=
     | "der_serialize" => opDerSerialize args
     | "kern" => opKern args
     | "keygen" => opKeygen args
+    | "smul" => opSmul args
+    | "sbmul" => opSbmul args
+    | "naf" => opNaf args
+    | "splitk" => opSplitK args
+    | "mul512rsh320" => opMul512 args
+    | "tablept" => opTablePt args
+    | "pubkey" => opPubKey args
+    | "jac" => opJac args
+    | "isoncurve" => opIsOnCurve args
+    | "decompressy" => opDecompressY args
     | "pubkey_parse" => opPubParse args
     | "pubkey_roundtrip" => opPubRoundtrip args
     | "schnorr_pubkey_parse" => opSchnorrPubParse args
